@@ -74,4 +74,29 @@ CLAIMS = {
         text='Decides that the caller\'s flux matrix is never written, that the frontier pop is argmax over min_fluxes[queue], neighbours are the strictly positive row entries, the relaxation is min(edge, upstream), updates are strict improvements written together to bottleneck and predecessor, the reported flux is the bottleneck at the argmax sink, the subtract scheme writes through to the working copy on the consecutive path edges and zeroes the bottleneck, names map to schemes, and paths() records, tests (>= on both limits, or), then replaces the working copy.',
         note='Not decided: optimality of the widest path over all paths, monotone path fluxes, total <= outflow as numbers. ' + _TB,
         ref='DESIGN.md 5 C17'),
+    'C05': dict(
+        technique='dominance of the row-bounds test over the flat-index computation, call-site argument rule, one-sided-comparison rule for slice bounds, nullness dataflow with branch pruning (dead-branch detection), sibling decision-tree agreement, index-space (row id vs position) rule',
+        text='Decides that an index at or beyond a row length raises before the flat index is formed whenever lengths are known (and that every flat-data access in __getitem__/__setitem__ goes through that check with error_check at its default), that negative indices are re-tested after adding the length, that every slice-expansion helper treats None and negative values of both bounds and handles or rejects negative steps (three genuine defects are reported as known findings), that reader and writer convert each index form with the same helper and arguments, that row-indexed arrays are subscripted with row ids of the selection, and that the flat->2-D conversion uses the last start <= index.',
+        note='Not decided: equality with the list-of-rows model for every index expression, dtype of returned rows, iteration order. ' + _TB,
+        ref='DESIGN.md 5 C05'),
+    'C06': dict(
+        technique='typestate dataflow over the class (states DATA/ARRAY/LENGTHS-AHEAD, rebuild events, CLEAN-at-exit obligation on every path), alias/effects for operator purity, copy-flag def-use in the constructor',
+        text='Decides by a may-dataflow over every path of every method that each writer (computed set: __init__, __setitem__, append) leaves flat data, row view and lengths re-synchronised at every exit and never rebuilds one representation from the other while the other is ahead; that no operator/reduction/property contains a write event or a store aliasing self/other and that they re-wrap fresh flat data with the same lengths under their own operator name; that with copy=True every definition of the flat data is copy-making with the flag flowing unmodified and lengths are always a fresh array.',
+        note='Not decided: agreement with the list-of-rows model over operation histories as values (the rows-of-object vs reshaped-view representation depends on run-time lengths). ' + _TB,
+        ref='DESIGN.md 5 C06'),
+    'C14': dict(
+        technique='SPMD uniformity taint (frozen rank-local parameter table) + collective matching over the resolved call graph, root/owner agreement rules, striping-site enumeration, attribute-existence check against the serial fallback classes, nullness dataflow, reduction provenance rule',
+        text='The MPI code cannot run here; the check decides from source that no collective (direct or through package functions) sits under a rank-divergent condition without a matched sibling, no divergent early return precedes a collective, loops with collectives have uniform trip counts, the buffer-filling rank is the broadcast root, reassembly roots equal stripe offsets, all striping sites use x[r::size], (owner, index) pairs keep their orientation, every mpi.comm/mpi.mpi4py attribute reachable with one rank exists on the fallback, global reductions come from collectives over the matching local quantity, striped loaders return strided lengths, and the MPI k-centers commit/selection rules. Two genuine defects are reported as known findings (F14, F20).',
+        note='Not decided: equality with the serial run for every world size and tie behaviour (cannot be executed). Assumes the SPMD calling convention (same kind of arguments on every rank). ' + _TB,
+        ref='DESIGN.md 5 C14'),
+    'C15': dict(
+        technique='ast rules: padding-width expression, ceil-division form recognition wherever a stride reaches data, same-definition (def-use) rule for keys and lengths, running-offset idiom with dominance of the total check, ordered-map lint',
+        text='Decides that row keys are padded to at least the digit count of the row count, that every loader whose data is strided returns ceil(n/stride) lengths, that ra.load fills a zeroed buffer with running offsets over the same (never reordered) key sequence that produced the lengths, that load_as_concatenated sizes the buffer, positions the files (exclusive prefix sums) and returns lengths from one definition, workers write only their own window, results are gathered in submission order, the total is checked before returning, and that dtypes are taken from / checked against the stored data.',
+        note='Not decided: bit-identity of values, PyTables node ordering, worker scheduling at run time. ' + _TB,
+        ref='DESIGN.md 5 C15'),
+    'C20': dict(
+        technique='ast branch-confinement of the carried-state write, argument provenance of the exit test, frozen idiom list for the wrap-around swap, slice-lemma and bincount(minlength) lints',
+        text='Decides that the carried state is reassigned only inside the buffered-exit branch whose test sees the carried state and THIS frame\'s angle, that re-binning uses the same angle and boundaries, that every frame records the state after the possible update, that frame 0 is binned by the hard boundaries; that the gates are the boundaries of the current basin with the seam swap applied to exactly the seam basins (value test or equivalent first/last-index test), widened outwards, returned and unpacked as (lower, upper), with the exit test inverted for the wrap-around basin; and that transitions pair frame n with n+1 along the frame axis with one length entry per trajectory.',
+        note='Not decided: the gate ARITHMETIC along each path (linear inequalities in the buffer width; needs a solver, a different technique family), e.g. that a 2-basin buffer >= 90 flips the wrap-around test. ' + _TB,
+        ref='DESIGN.md 5 C20'),
 }
